@@ -25,7 +25,8 @@ MUTATORS = {"append", "extend", "insert", "pop", "remove", "clear", "add", "upda
 ALLOC_CALLS = {"dict", "list", "set", "tuple", "defaultdict", "Counter", "zeros", "empty", "ones", "array", "eye", "identity",
                "zeros_like", "concatenate", "hstack", "vstack", "column_stack", "copy", "deepcopy", "csr_array", "coo_array",
                "csc_matrix", "Matrix", "BlockSeries", "tocoo", "tocsr", "toarray", "astype", "reshape_copy", "sorted", "where",
-               "cauchy_dot_product", "compress", "arange", "linspace", "Tuple", "MUMPSContext", "kpm_vectors", "jackson_kernel"}
+               "cauchy_dot_product", "compress", "arange", "linspace", "Tuple", "MUMPSContext", "kpm_vectors", "jackson_kernel",
+               "min", "max", "len", "int", "float", "abs"}     # the last row: builtins returning immutable numbers
 
 
 def _is_alloc(e):
